@@ -43,9 +43,12 @@ func (c *Ctx) opPaths(op regOp) []opPath {
 		panic(bindErr("codec." + op.Op + " not found"))
 	}
 	e.havocLookup = map[int]bool{mapObj: true}
+	// lock-free cells (atomic.Pointer memos) of the registry answer nondeterministically too: nil, or an entry
+	// carrying one of the tracked names
+	e.havocAtomic = []string{c19Name, c19Name2}
 	oldMerge := e.merge
 	e.merge = false // every control-flow path keeps its own event trace
-	defer func() { e.havocLookup = nil; e.merge = oldMerge }()
+	defer func() { e.havocLookup = nil; e.havocAtomic = nil; e.merge = oldMerge }()
 	s.trace = nil
 	e.pushCall(s, fn, args, nil)
 	var out []opPath
@@ -81,6 +84,8 @@ func c19schedItems(c *Ctx) []Item {
 	tuples := [][]regOp{
 		{reg, reg}, {reg, get}, {reg, rem}, {reg, clr}, {get, rem}, {get, clr}, {rem, rem}, {rem, clr}, {get, get}, {clr, clr},
 		{reg, reg, get}, {reg, reg, rem}, {reg, rem, get}, {reg, clr, get},
+		// a look-up that overlaps a removal, and a look-up after both (a memo published late is served here)
+		{get, rem, get}, {get, clr, get},
 	}
 	// operations on two different names: one operation must not disturb the other's key
 	reg2 := regOp{"Registry", c19Name2, "service"}
@@ -331,6 +336,68 @@ func c19combo(c *Ctx, e *Engine, ops []regOp, paths [][]opPath, idx []int) {
 			}
 		}
 	}
+	// lock-free cells: every atomic load sees the latest earlier atomic store to its cell (initially nil); the
+	// value an entry stands for is what its thread's latest map look-up saw
+	type astore struct {
+		ts     *Term
+		nonNil bool
+		name   string
+		val    *Term
+		cell   string
+	}
+	var astores []astore
+	lastSeen := make([]*Term, n)
+	hasLookup := make([]bool, n)
+	for _, se := range evs {
+		switch se.ev.Kind {
+		case "lookup":
+			if ki := keyIdx(se.ev.Key); ki >= 0 {
+				lastSeen[se.thread] = seenAt(se.ts, ki)
+				hasLookup[se.thread] = true
+			}
+		case "astore":
+			v := lastSeen[se.thread]
+			if v == nil {
+				v = e.freshVar("memo_val", CW)
+			}
+			astores = append(astores, astore{se.ts, se.ev.Res, se.ev.Name, v, se.ev.Key})
+		}
+	}
+	for _, se := range evs {
+		if se.ev.Kind != "aload" {
+			continue
+		}
+		latest := func(i int) *Term {
+			l := Lt(astores[i].ts, se.ts, false)
+			for j := range astores {
+				if i != j && astores[j].cell == astores[i].cell {
+					l = And(l, Not(And(Lt(astores[i].ts, astores[j].ts, false), Lt(astores[j].ts, se.ts, false))))
+				}
+			}
+			return l
+		}
+		if !se.ev.Res {
+			for i, a := range astores {
+				if a.cell == se.ev.Key && a.nonNil {
+					cons = append(cons, Not(latest(i)))
+				}
+			}
+			continue
+		}
+		var some []*Term
+		memo := C(CW, 0)
+		for i, a := range astores {
+			if a.cell != se.ev.Key || !a.nonNil || (a.name != se.ev.Name && a.name != "?") {
+				continue
+			}
+			some = append(some, latest(i))
+			memo = Ite(latest(i), a.val, memo)
+		}
+		cons = append(cons, Or(some...)) // (no matching store: this path combination is infeasible)
+		if ops[se.thread].Op == "Get" && !hasLookup[se.thread] {
+			getSeen[se.thread] = memo
+		}
+	}
 	final := make([]*Term, len(keys))
 	for ki := range keys {
 		final[ki] = seenAt(C(W, uint64(total)), ki)
@@ -406,6 +473,8 @@ func c19combo(c *Ctx, e *Engine, ops []regOp, paths [][]opPath, idx []int) {
 				d += fmt.Sprintf("(%s)=%v", se.ev.Key, se.ev.Res)
 			} else if se.ev.Kind == "update" || se.ev.Kind == "delete" {
 				d += "(" + se.ev.Key + ")"
+			} else if se.ev.Kind == "aload" || se.ev.Kind == "astore" {
+				d = fmt.Sprintf("atomic %s entry=%q", map[string]string{"aload": "load", "astore": "store"}[se.ev.Kind], se.ev.Name)
 			} else if se.ev.Kind == "lenzero" {
 				d = fmt.Sprintf("len(map)==0 is %v", se.ev.Res)
 			}
